@@ -14,27 +14,33 @@ VERIF = os.path.dirname(os.path.dirname(os.path.abspath(__file__)))
 ENGINES = ["c23", "c22", "c25", "c24", "c26", "c07", "c21c", "c27"]
 
 
+def spread(items, n):
+    """n items spread evenly over the whole list (first and last included)."""
+    if len(items) <= n:
+        return list(items)
+    return [items[round(i * (len(items) - 1) / (n - 1))] for i in range(n)]
+
+
 def emit(engine, n, seed):
     from verifsim import core, harness
     out = []
     if engine == "c23":
         from checks import c23
         cases, _ = c23.cases_for("quick", seed)
-        step = max(1, len(cases) // n)
-        for c in cases[::step][:n]:
+        for c in spread(cases, n):
             r = c23.run_case(c)
             out.append([r["trace_digest"], json.dumps(r["sig"], sort_keys=True), r["steps"]])
     elif engine == "c22":
         from checks import c22
         cases = [c for c in c22.cases_for("quick", seed) if c["n"] > 1]
-        step = max(1, len(cases) // n)
-        for c in cases[::step][:n]:
+        # evenly over all scripts (W1..W5), so that driver runs, HDF5 exports and split runs are included
+        for c in spread(cases, n):
             r = c22.run_case(c)
             out.append([r["trace_digest"], json.dumps(r["sig"], sort_keys=True), r["steps"]])
     elif engine == "c25":
         from checks import c25
         bases = c25.bases_for("quick", seed)
-        for i, b in enumerate(bases[8:8 + n]):
+        for i, b in enumerate(bases[10:11] + bases[12:12 + n - 1]):     # one fixed multi-rank base + seeded ones
             r = c25.explore({"base": b, "seed": core.h64(seed, "det", i), "tier": "quick"})
             out.append([r["journal"], r["cuts"], r["unique_states"], sorted(json.dumps(f["sig"], sort_keys=True) for f in r["fail"])])
     elif engine == "c24":
